@@ -50,6 +50,31 @@ GROUPS = {
     "TlsSess": dict(imports=["TLX.PyRt", "TLX.Session"], decls=[]),
     "Reasm": dict(imports=["TLX.PyRt", "TLX.Reassembly"], decls=[]),
     "Checksum": dict(imports=["TLX.PyRt"], decls=[]),
+    "QuicDissect2": dict(imports=["TLX.PyRt", "TLX.Quic.Packet", "TLX.Gen.Translated.Varint", "TLX.Gen.Translated.QuicDissect"],
+                         decls=["""/-- a `LongQuicPacket` / `ShortQuicPacket` as constructed: the keyword arguments given (absent ones: `none`) -/
+structure QuicPacketObj where
+  header : TLX.Quic.HType
+  packet_type : TLX.Quic.PType
+  isserver : Bool
+  ts : Nat
+  first_byte : Sum Nat Bytes
+  dcid : Bytes
+  version : Option Bytes
+  dcid_len : Option Bytes
+  scid_len : Option Bytes
+  scid : Option Bytes
+  token_len : Option Nat
+  token_len_bytes : Option Bytes
+  token : Option Bytes
+  packet_len : Option Bytes
+  packet_len_bytes : Option Bytes
+  packet_num : Option Bytes
+  payload : Option Bytes
+  key_phase : Option Nat
+  retry_token : Option Bytes
+  retry_integ_tag : Option Bytes
+  deriving DecidableEq, Repr
+"""]),
     "Suites": dict(imports=["TLX.PyRt", "TLX.CipherSuiteTypes"], decls=[]),
     # the frame class constructors call the two varint functions: this group rests on Varint's definitions
     "Frames": dict(imports=["TLX.PyRt", "TLX.Quic.FrameTypes", "TLX.Gen.Translated.Varint"], decls=[]),
@@ -324,6 +349,41 @@ SPECS.append(dict(name="parse_frames", group="Frames", file="tlexport/quic/quic_
                   calls={"GenericFrame": dict(lean=f"construct {CLS}.GenericFrame", args=["Bytes", None], ret="FrameObj", raises=True)},
                   attr_funcs={("FrameObj", "length"): ("FrameObj.length", "Nat")}))
 
+# quic_dissector.py: byte_xor / byte_and, remove_header_protection (the two mask primitives are one external function of
+# (chacha?, key, sample)) and extract_quic_packet (struct formats with static field kinds, keyword constructors as records,
+# `except Exception`, UnboundLocalError). `keys` is a dict of byte strings (a missing name: KeyError).
+MASK = ("hpMask", "Bool → Bytes → Bytes → Except PyRt.Err Bytes")
+PKT_FIELDS = [("packet_type", PT), ("isserver", "Bool"), ("ts", "Nat"), ("first_byte", "Nat|Bytes"), ("dcid", "Bytes"),
+              ("version", "Option Bytes"), ("dcid_len", "Option Bytes"), ("scid_len", "Option Bytes"), ("scid", "Option Bytes"),
+              ("token_len", "Option Nat"), ("token_len_bytes", "Option Bytes"), ("token", "Option Bytes"),
+              ("packet_len", "Option Bytes"), ("packet_len_bytes", "Option Bytes"), ("packet_num", "Option Bytes"),
+              ("payload", "Option Bytes"), ("key_phase", "Option Nat"), ("retry_token", "Option Bytes"),
+              ("retry_integ_tag", "Option Bytes")]
+QD = "tlexport/quic/quic_dissector.py"
+for _n in ("byte_xor", "byte_and"):
+    SPECS.append(dict(name=_n, group="QuicDissect2", file=QD, func=_n, params=[("byte1", "Bytes"), ("byte2", "Bytes")], ret="Bytes"))
+BYTE_CALLS = {n: dict(lean=n, args=["Bytes", "Bytes"], ret="Bytes", raises=True) for n in ("byte_xor", "byte_and")}
+RHP_PARAMS = ["header_type", "sample", "first_packet_byte", "hp_key", "datagram_data", "pn_offset", "ciphersuite"]
+RHP_TYPES = [HT, "Bytes", "Nat", "Bytes", "Bytes", "Nat", "Option Bytes"]
+SPECS.append(dict(name="remove_header_protection", group="QuicDissect2", file=QD, func="remove_header_protection",
+                  externals=[MASK], params=list(zip(RHP_PARAMS, RHP_TYPES)), ret="Bytes × Bytes × Nat", consts=HTYPE,
+                  calls={**BYTE_CALLS, "decode_variable_length_int": VARINT_CALLS["decode_variable_length_int"],
+                         "make_hp_mask": dict(lean="hpMask false", args=["Bytes", "Bytes"], ret="Bytes", raises=True),
+                         "make_chacha_hp_mask": dict(lean="hpMask true", args=["Bytes", "Bytes"], ret="Bytes", raises=True)}))
+SPECS.append(dict(name="extract_quic_packet", group="QuicDissect2", file=QD, func="extract_quic_packet",
+                  externals=[MASK], objects=["in_packet"],
+                  params=[("isserver", "Bool"), ("guessed_dcid", "Bytes"), ("keys", "Dict Str Bytes"), ("ciphersuite", "Option Bytes")],
+                  places=[("in_packet.tls_data", "tls_data", "Bytes", "rw"), ("in_packet.timestamp", "timestamp", "Nat", "r")],
+                  ret="List QuicPacketObj", consts={**HTYPE, **PTYPE},
+                  locals={"fmt_string": "Fmt", "packet_buf": "List QuicPacketObj", "total_packet_len": "Nat"},
+                  calls={**VARINT_CALLS,
+                         "get_header_type": dict(lean="get_header_type", args=["Bytes"], ret=HT, raises=True),
+                         "get_packet_type": dict(lean="get_packet_type", params=["datagram_data"], args=["Bytes"], ret=f"Option {PT}", raises=True),
+                         "remove_header_protection": dict(lean="remove_header_protection hpMask", params=RHP_PARAMS, args=RHP_TYPES,
+                                                          ret="Bytes × Bytes × Nat", raises=True)},
+                  ctors={"LongQuicPacket": dict(type="QuicPacketObj", fields=PKT_FIELDS, consts=[f"header := {HT}.long"], ignore=["supported_version"]),
+                         "ShortQuicPacket": dict(type="QuicPacketObj", fields=PKT_FIELDS, consts=[f"header := {HT}.short"])}))
+
 # cipher_suite_parser.py: the two tables re-derived from the dict displays (classes named by the last identifier of the
 # expression that denotes them) and `split_cipher_suite`
 VAL = "TLX.CipherSuite.Val"
@@ -382,7 +442,7 @@ THEOREMS = _uniq(theorem_of(s) for s in SPECS)
 
 
 # a group whose definitions call another group's: it cannot be proved when that one is broken
-GROUP_DEPS = {"Frames": ["Varint"]}
+GROUP_DEPS = {"Frames": ["Varint"], "QuicDissect2": ["Varint", "QuicDissect"]}
 
 
 def group_modules(groups):
@@ -399,8 +459,8 @@ MODULES = group_modules(GROUPS)          # all groups (`TLX.Props.Translated` im
 # property → the groups whose translated functions its model functions are (what the check proves besides its own modules)
 CHECK_GROUPS = {
     "C01": ["TlsSess", "Suites"],
-    "C02": ["QuicDissect", "QuicSess", "Pn", "Varint", "Frames"],
-    "C03": ["TlsSess", "QuicDissect"],
+    "C02": ["QuicDissect", "QuicSess", "Pn", "Varint", "Frames", "QuicDissect2"],
+    "C03": ["TlsSess", "QuicDissect", "Varint", "QuicDissect2"],
     "C04": ["Demux", "QuicSess", "QuicDissect"],
     "C05": ["Reasm"],
     "C07": ["Ports"],
